@@ -40,6 +40,58 @@ class Hyp:
         return hit[0]
 
 
+# ---- workaround for a z3 unsoundness (found with a behaviour-preserving refactoring, reproduced on z3 5.1.0 and 4.8.12):
+#   Length(s) <= 0  /\  (0 <= k < Length(s)  =>  P(seq.extract(seq.nth(s, k), Length(seq.nth(s, k)) - 1, 1)))
+# is reported `unsat` although s = [] is a model; with  Length(s) == 0  instead of the bound it is `sat`, and adding
+# the (valid) lemma  Length(s) <= 0 => Length(s) == 0  restores `sat`.  Every query therefore carries that lemma for
+# every term whose length occurs in it.  The lemma is a tautology: it can never make a query unsat that is not.
+_LEN_MEMO = {}      # ast id -> frozenset of ids of terms t with Length(t) below that node
+_LEN_TERMS = {}     # id -> t (keeps the ASTs alive, so ids stay valid)
+_LEN_KEEP = []
+_LEN_LEMMA = {}
+
+
+def len_lemmas(formulas):
+    ids = set()
+    for f in formulas:
+        if not z3.is_expr(f):
+            continue
+        stack = [(f, False)]
+        while stack:
+            e, done = stack.pop()
+            i = e.get_id()
+            if i in _LEN_MEMO and not done:
+                continue
+            if not z3.is_app(e):
+                _LEN_MEMO[i] = frozenset()
+                _LEN_KEEP.append(e)
+                continue
+            if not done:
+                stack.append((e, True))
+                for c in e.children():
+                    if c.get_id() not in _LEN_MEMO:
+                        stack.append((c, False))
+                continue
+            acc = set()
+            if e.decl().kind() == z3.Z3_OP_SEQ_LENGTH:
+                a = e.arg(0)
+                _LEN_TERMS[a.get_id()] = a
+                acc.add(a.get_id())
+            for c in e.children():
+                acc |= _LEN_MEMO.get(c.get_id(), frozenset())
+            _LEN_MEMO[i] = frozenset(acc)
+            _LEN_KEEP.append(e)
+        ids |= _LEN_MEMO.get(f.get_id(), frozenset())
+    res = []
+    for i in sorted(ids):
+        lem = _LEN_LEMMA.get(i)
+        if lem is None:
+            n = z3.Length(_LEN_TERMS[i])
+            lem = _LEN_LEMMA[i] = z3.Implies(n <= 0, n == 0)
+        res.append(lem)
+    return res
+
+
 class Path:
     def __init__(self, decisions=(), timeout_ms=4000, parent=None):
         self.decisions = list(decisions)
@@ -125,6 +177,8 @@ class Path:
             s.add(f)
         for e in extra:
             s.add(e)
+        for f in len_lemmas(list(self._solver.assertions()) + [e for e in extra if z3.is_expr(e)]):
+            s.add(f)
         t0 = time.time()
         try:
             r = s.check()
@@ -176,6 +230,8 @@ class Path:
                     s.add(f)
                 for e in extra:
                     s.add(e)
+                for f in len_lemmas(list(self._solver.assertions()) + [e for e in extra if z3.is_expr(e)]):
+                    s.add(f)
                 r = s.check()
                 os.write(w_fd, b'u' if r == z3.unsat else (b's' if r == z3.sat else b'?'))
             except BaseException:
@@ -201,6 +257,20 @@ class Path:
         STATS['forked_checks'] = STATS.get('forked_checks', 0) + 1
         STATS['solver_s'] += time.time() - t0
         return res
+
+    def _quick_unsat(self, f):
+        self._sync()
+        s = z3.Solver()
+        s.set('rlimit', 30000)
+        for a in self._solver.assertions():
+            s.add(a)
+        s.add(f)
+        for a in len_lemmas(list(self._solver.assertions()) + [f]):
+            s.add(a)
+        try:
+            return s.check() == z3.unsat
+        except z3.Z3Exception:
+            return False
 
     def check(self, *extra, timeout_ms=None, proof_step=False):
         """sat / unsat / unknown of pc + extra.  proof_step: the answer `unsat` is needed for a proof (meta-rule side
@@ -272,11 +342,24 @@ class Path:
         if z3.is_false(g):
             return False
         rt = self.check(cond, timeout_ms=self.feas_timeout_ms)
+        rf = None
         if rt == z3.unsat:
-            return False
-        rf = self.check(z3.Not(cond), timeout_ms=self.feas_timeout_ms)
-        if rf == z3.unsat:
-            return True
+            # belt against solver unsoundness (a z3 bug was found, see len_lemmas): if the negation is refuted as
+            # quickly, the path condition itself is reported inconsistent - then no side is pruned (harmless if the
+            # path really is infeasible).  A small resource limit: `unsat` answers are fast, anything else means "fine".
+            if self._quick_unsat(z3.Not(cond)):
+                STATS['both_unsat'] = STATS.get('both_unsat', 0) + 1
+                rf = z3.unsat
+            else:
+                if os.environ.get('PYVC_DEBUG_BRANCH'):
+                    print(f'   [branch] {str(cond)[:70]} decided False (cond unsat) npc={len(self.pc)} nhyps={len(self.hyps)}')
+                return False
+        if rf is None:
+            rf = self.check(z3.Not(cond), timeout_ms=self.feas_timeout_ms)
+            if rf == z3.unsat:
+                if os.environ.get('PYVC_DEBUG_BRANCH'):
+                    print(f'   [branch] {str(cond)[:70]} decided True (negation unsat) npc={len(self.pc)} nhyps={len(self.hyps)}')
+                return True
         if self.pos < len(self.decisions):
             d = self.decisions[self.pos]
         else:
